@@ -161,10 +161,10 @@ Section C14.
     destruct (nonemptyS [i] && nonemptyZ ms); [|reflexivity].
     set (G1 := replace_first G (gid g) (mkGroup (gid g) ms [i] (nlex g))).
     unfold resolve_union. simpl. destruct (resolve segs fuel G1 i) as [l|e]; [|reflexivity].
-    rewrite app_nil_r. f_equal. f_equal. f_equal. f_equal. apply filter_ext. intros m. f_equal.
+    simpl flat_map. rewrite app_nil_r. f_equal. f_equal. f_equal. f_equal. apply filter_ext. intros m. f_equal.
     destruct (memZ m l) eqn:E1.
-    - apply memZ_iff. apply add_new_in. right. apply memZ_iff. exact E1.
-    - apply memZ_false_iff. intro Hin. apply add_new_in in Hin. destruct Hin as [[]|Hin].
+    - symmetry. apply memZ_iff. apply add_new_in. right. apply memZ_iff. exact E1.
+    - symmetry. apply memZ_false_iff. intro Hin. apply add_new_in in Hin. destruct Hin as [[]|Hin].
       apply memZ_iff in Hin. congruence.
   Qed.
 
